@@ -141,7 +141,10 @@ func startServer(dir string, base int, join string, tag string) (*srvProc, error
 		return nil, err
 	}
 	go func() { p.done <- p.cmd.Wait(); out.Close() }()
-	deadline := time.Now().Add(40 * time.Second)
+	// readiness is a watchdog, not a verdict: replaying a long log on a loaded machine takes a while. A server
+	// that EXITS while starting is reported as such; one that is still starting when the watchdog fires is
+	// an inconclusive observation (errNotReady).
+	deadline := time.Now().Add(300 * time.Second)
 	for time.Now().Before(deadline) {
 		select {
 		case err := <-p.done:
@@ -155,8 +158,14 @@ func startServer(dir string, base int, join string, tag string) (*srvProc, error
 		}
 		time.Sleep(50 * time.Millisecond)
 	}
-	return p, fmt.Errorf("server not ready in 40 s: %s", tailFile(p.outp, 500))
+	return p, &errNotReady{fmt.Sprintf("server still starting after 300 s (watchdog): %s", tailFile(p.outp, 500))}
 }
+
+type errNotReady struct{ msg string }
+
+func (e *errNotReady) Error() string { return e.msg }
+
+func isNotReady(err error) bool { _, ok := err.(*errNotReady); return ok }
 
 func (p *srvProc) alive() bool {
 	if p.exitd {
@@ -187,7 +196,7 @@ func (p *srvProc) stop() int {
 			return ee.ExitCode()
 		}
 		return -3
-	case <-time.After(40 * time.Second):
+	case <-time.After(120 * time.Second):
 		p.cmd.Process.Kill()
 		<-p.done
 		p.exitd = true
@@ -464,7 +473,7 @@ func RunC11(c *lib.Ctx) {
 	canary := func(tag string) bool {
 		ev := fmt.Sprintf("canary-%s-%d", tag, st.accepted)
 		body, _ := json.Marshal(&protocol.Event{Event: []byte(ev)})
-		resp := rawRequest(srv.api(), buildRequest("POST", "/events", body, -1, ""), 15*time.Second)
+		resp := rawRequest(srv.api(), buildRequest("POST", "/events", body, -1, ""), 120*time.Second)
 		if resp.err != "" || resp.status != 201 {
 			c.Violation("C11:canary:add-failed", fmt.Sprintf("after %s a valid insertion is no longer served: status=%d err=%s body=%s", tag, resp.status, resp.err, string(resp.body[:minI(len(resp.body), 200)])), map[string]string{"id": tag, "server_log_tail": tailFile(srv.outp, 1500)})
 			return false
@@ -492,7 +501,7 @@ func RunC11(c *lib.Ctx) {
 			stMu.Unlock()
 		}
 		qb, _ := json.Marshal(&protocol.MembershipQuery{Key: []byte(ev), Version: &snap.Version})
-		resp = rawRequest(srv.api(), buildRequest("POST", "/proofs/membership", qb, -1, ""), 15*time.Second)
+		resp = rawRequest(srv.api(), buildRequest("POST", "/proofs/membership", qb, -1, ""), 120*time.Second)
 		var mr protocol.MembershipResult
 		if resp.err != "" || resp.status != 200 || json.Unmarshal(resp.body, &mr) != nil {
 			c.Violation("C11:canary:membership-failed", fmt.Sprintf("after %s a valid membership query is no longer served: status=%d err=%s", tag, resp.status, resp.err), map[string]string{"id": tag})
@@ -538,8 +547,11 @@ func RunC11(c *lib.Ctx) {
 		for i, e := range empties {
 			q := &c11req{ID: fmt.Sprintf("e%d", i), Mux: "api", Method: "POST", Path: e.path, Class: e.cls, body: []byte(e.body), cl: -1}
 			resp := rawRequest(srv.api(), buildRequest(q.Method, q.Path, q.body, q.cl, ""), 15*time.Second)
+			if resp.err == "timeout" {
+				resp = rawRequest(srv.api(), buildRequest(q.Method, q.Path, q.body, q.cl, ""), 120*time.Second)
+			}
 			c.Count("requests_sent_to_empty_log", 1)
-			hc := rawRequest(srv.api(), buildRequest("HEAD", "/healthcheck", nil, -1, ""), 10*time.Second)
+			hc := rawRequest(srv.api(), buildRequest("HEAD", "/healthcheck", nil, -1, ""), 90*time.Second)
 			switch {
 			case !srv.alive():
 				fail(q, "server-died", fmt.Sprintf("POST %s (%s) on a log without events killed the server process", q.Path, q.Class))
@@ -584,6 +596,15 @@ func RunC11(c *lib.Ctx) {
 			c.Seen("slow_requests(>2s)", fmt.Sprintf("%s %s %s", q.Method, q.Path, q.Class))
 		}
 		c.Count("requests_sent", 1)
+		if resp.err == "timeout" && !incomplete {
+			// slow is not hung: the watchdog of the first attempt is short to keep the corpus moving; the same
+			// request gets a second chance under a generous one before "no response" becomes the verdict
+			if q.Mux == "api" && strings.HasPrefix(q.Path, "/events") {
+				uncertain = true // the first attempt may still be applied
+			}
+			c.Count("requests_repeated_with_long_watchdog", 1)
+			resp = rawRequest(addr, raw, 150*time.Second)
+		}
 		switch {
 		case resp.err == "":
 			c.Seen("status_codes", fmt.Sprint(resp.status))
@@ -620,12 +641,19 @@ func RunC11(c *lib.Ctx) {
 		t1 := time.Now()
 		hc := rawRequest(srv.api(), buildRequest("HEAD", "/healthcheck", nil, -1, ""), 10*time.Second)
 		c.Count("ms_in_healthchecks", int64(time.Since(t1)/time.Millisecond))
+		if srv.alive() && (hc.err != "" || hc.status != 204) {
+			// a slow answer on a loaded machine is not a wedge: ask again with a generous watchdog
+			hc = rawRequest(srv.api(), buildRequest("HEAD", "/healthcheck", nil, -1, ""), 90*time.Second)
+			c.Count("healthchecks_repeated_with_long_watchdog", 1)
+		}
 		if !srv.alive() || hc.err != "" || hc.status != 204 {
 			if !srv.alive() {
 				fail(q, "server-died", fmt.Sprintf("%s %s (%s) on the %s interface killed the server process: %s", q.Method, q.Path, q.Class, q.Mux, firstOf(tailFile(srv.outp, 4000), "panic:", "fatal error:", "Assertion")))
 				// does the poisoned state survive a restart on the same directories?
 				p2, err := startServer(srv.dir, srv.base, "", "replay")
-				if err != nil || !p2.alive() {
+				if isNotReady(err) {
+					c.Inconclusive("restart after a server death: " + err.Error())
+				} else if err != nil || !p2.alive() {
 					fail(q, "replay-crash", fmt.Sprintf("after %s %s (%s) the server cannot be restarted on the same data: %v", q.Method, q.Path, q.Class, err))
 				}
 				if p2 != nil {
@@ -659,11 +687,18 @@ func RunC11(c *lib.Ctx) {
 	defer func() { c.Count("ms_phase_replay_and_cluster", int64(time.Since(tPhase)/time.Millisecond)) }()
 	// clean stop, restart on the same data (log replay), canary
 	canary("before-stop")
-	if code := srv.stop(); code != 0 {
+	if code := srv.stop(); code == -1 {
+		c.Inconclusive("the server was still stopping when the watchdog fired (120 s)")
+	} else if code != 0 {
 		c.Violation("C11:stop:exit-status", fmt.Sprintf("the server did not stop cleanly after the corpus (exit %d): %s", code, tailFile(srv.outp, 800)), nil)
 	}
 	p2, err := startServer(srv.dir, srv.base, "", "replay")
-	if err != nil {
+	if isNotReady(err) {
+		c.Inconclusive("replay restart: " + err.Error())
+		if p2 != nil {
+			p2.stop()
+		}
+	} else if err != nil {
 		c.Violation("C11:replay:restart-failed", "after the corpus the server cannot be restarted on the same data (log replay): "+err.Error(), nil)
 	} else {
 		srv = p2
@@ -728,9 +763,12 @@ func runC11Cluster(c *lib.Ctx) {
 	leader := 0
 	add := func(ev string) (uint64, bool) {
 		body, _ := json.Marshal(&protocol.Event{Event: []byte(ev)})
-		for try := 0; try < 2*len(procs); try++ { // find the leader: followers answer with a redirect
+		for try := 0; try < 6*len(procs); try++ { // find the leader: followers answer with a redirect
+			if try >= len(procs) {
+				time.Sleep(500 * time.Millisecond) // an election may be going on
+			}
 			p := procs[(leader+try)%len(procs)]
-			resp := rawRequest(p.api(), buildRequest("POST", "/events", body, -1, ""), 15*time.Second)
+			resp := rawRequest(p.api(), buildRequest("POST", "/events", body, -1, ""), 60*time.Second)
 			if resp.err == "" && resp.status == 201 {
 				leader = (leader + try) % len(procs)
 				var s protocol.Snapshot
